@@ -91,6 +91,11 @@ def oracle_equilibrium(R, tier, seed):
         # independent solve (well conditioned: eliminate the root)
         uf = np.linalg.solve(K[np.ix_(free, free)], f[free])
         if np.abs(u[free] - uf).max() > 1e-6 * np.abs(uf).max(): bad["displacements-differ"] = float(np.abs(u[free] - uf).max() / np.abs(uf).max())
+        if it % 3 == 0 and not bad:
+            # the loads are forces and moments: the same physical loads supplied in kN (and kN*m) give the same displacements
+            pk = structs.run(structs.build_struct(s, loads / 1000.0, loads_units="kN"))
+            dk = structs.g(pk, "wing.disp")
+            if np.abs(dk - disp).max() > 1e-9 * np.abs(disp).max(): bad["loads-in-kN-give-other-displacements"] = float(np.abs(dk - disp).max() / np.abs(disp).max())
         O["cases"] += 1
         desc = {"model": model, "kind": kind, "ny": ny, "seed": seed, "it": it, "steeply_swept": steep}
         if bad: _fail(O, "C10:SpatialBeamAlone:" + sorted(bad)[0], desc, errors=bad, nodes=nodes.tolist(), loads=loads.tolist())
